@@ -7,6 +7,8 @@ import Wharf.Model.Util
 import Wharf.Model.Rsync
 import Wharf.Model.Overlay
 import Wharf.Model.Validate
+import Wharf.Model.Bsdiff
+import Wharf.Model.Lru
 
 open Wharf Wharf.Util
 
@@ -96,11 +98,57 @@ def doC18 (args : List String) : IO String := do
       ";".intercalate (d.wounds.map showWound)
   | _ => return "bad-op"
 
+def showCtrl : Bsdiff.Ctrl → String
+  | .eof => "EOF"
+  | .op a c s => s!"A {a.length} {fnvList a} C {c.length} {fnvList c} S {s}"
+
+/-- `c12 <partitions> <old> <new>` -/
+def doC12 (args : List String) : IO String := do
+  match args with
+  | [pS, oT, nT] =>
+    let old := (← readContent oT).data
+    let new := (← readContent nT).data
+    match Bsdiff.diffExec 131072 (parseNat pS) old new with
+    | .panic s => return s!"PANIC {s}"
+    | .err e => return s!"ERR {e}"
+    | .ok cs =>
+      let res := match Bsdiff.applySeries old cs ⟨0, []⟩ with
+        | .ok (st, _) => s!"{st.out.length} {fnvList st.out}"
+        | .err e => s!"APPLY-ERR {e}"
+        | .panic p => s!"APPLY-PANIC {p}"
+      return " / ".intercalate (cs.map showCtrl) ++ " || " ++ res
+  | _ => return "bad-op"
+
+def parseLruOps (s : String) : List Lru.Op :=
+  (s.splitOn ",").filterMap fun t =>
+    if t.startsWith "s" then some (.seek (parseInt (t.drop 1).toString))
+    else if t.startsWith "r" then some (.read (parseNat (t.drop 1).toString))
+    else none
+
+/-- `lru <chunk> <cap> <file> <ops>` -/
+def doLru (args : List String) : IO String := do
+  match args with
+  | [cS, capS, fT, opsS] =>
+    let file := (← readContent fT).toList
+    match Lru.run (Lru.new (parseNat cS) (parseNat capS) file) (parseLruOps opsS) with
+    | .panic s => return s!"PANIC {s}"
+    | .err e => return s!"ERR {e}"
+    | .ok (lf, outs) =>
+      let strs := (outs.zip (parseLruOps opsS)).map fun (o, op) =>
+        match o, op with
+        | none, _ => "-"
+        | some _, .seek _ => "ok"
+        | some b, .read _ => s!"{b.length} {fnvList b}"
+      return ";".intercalate strs ++ s!" hits={lf.hits} misses={lf.misses}"
+  | _ => return "bad-op"
+
 def dispatch (line : String) : IO String := do
   match line.trimAscii.toString.splitOn " " with
   | "c11" :: args => doC11 args
   | "c14" :: args => doC14 args
   | "c18" :: args => doC18 args
+  | "c12" :: args => doC12 args
+  | "lru" :: args => doLru args
   | ["ping"] => return "pong"
   | _ => return "bad-op"
 
